@@ -116,6 +116,30 @@ except ImportError:
     pass
 
 
+try:
+    import gen_layoutdetect
+    MODULES['LayoutDetect'] = gen_layoutdetect.generate
+except ImportError:
+    pass
+
+try:
+    import gen_search
+    MODULES['Search'] = gen_search.generate
+except ImportError:
+    pass
+
+try:
+    import gen_journalrender
+    MODULES['JournalRender'] = gen_journalrender.generate
+except ImportError:
+    pass
+
+try:
+    import gen_worker
+    MODULES['Worker'] = gen_worker.generate
+except ImportError:
+    pass
+
 def main():
     args = sys.argv[1:]
     repo = '/repo'
